@@ -679,7 +679,7 @@ class World:
         if mc is not None and hasattr(mc, "moves"):
             for name, st in mc.moves.items():
                 for k, lf in enumerate(self.leaves_of(st.move)):
-                    if id(lf) not in known and hasattr(lf, "labels"):
+                    if id(lf) not in known and not isinstance(lf, BareMove) and hasattr(lf, "labels"):
                         known.add(id(lf))
                         out.append((f"{name}.live{k}", lf))
         return out
@@ -807,6 +807,10 @@ class World:
             if id(m) in seen:
                 return
             seen.add(id(m))
+            if isinstance(m, BareMove):
+                # a protocol-only user object: the harness must not read its attributes either (they are logged)
+                out.append(m)
+                return
             subs = getattr(m, "moves", None)
             if isinstance(subs, list):
                 for x in subs:
